@@ -28,6 +28,7 @@ type c07Desc struct {
 	Whole     bool   `json:"whole,omitempty"`
 	StoreID   bool   `json:"id,omitempty"`
 	Supplied  string `json:"supplied,omitempty"` // "" | lib-sorted | lib-mh | ref-sorted | ref-mh
+	Big       int    `json:"big,omitempty"`      // > 0: that many tiny sections (an index generated at open holds tens of thousands of records)
 }
 
 func runC07(t *mon.T, raw json.RawMessage) {
@@ -37,6 +38,14 @@ func runC07(t *mon.T, raw json.RawMessage) {
 	}
 	r := gen.Rand(d.Seed)
 	content := gen.MakeContent(r, gen.ContentOpts{MinBlocks: 0, MaxBlocks: 10, MaxRoots: 3, Dups: true, Synthetic: true, Boundaries: true, Block: gen.BlockOpts{MaxSize: 200}})
+	if d.Big > 0 {
+		content.Blocks = content.Blocks[:0]
+		for i := 0; i < d.Big; i++ {
+			dg := gen.Bytes(r, []int{32, 32, 20, 64}[i%4])
+			content.Blocks = append(content.Blocks, refcar.Block{Cid: refcar.MakeCidV1(0x55, []uint64{0x12, 0x13}[i%2], dg), Data: []byte{byte(i), byte(i >> 8)}})
+		}
+		t.Cover("input:tens-of-thousands-of-sections")
+	}
 	// same key, different bytes (only possible with synthetic CIDs; the stores never hash)
 	if len(content.Blocks) > 0 && r.Intn(3) == 0 {
 		b := content.Blocks[r.Intn(len(content.Blocks))]
@@ -95,7 +104,18 @@ func runC07(t *mon.T, raw json.RawMessage) {
 
 	// queries
 	var queries [][]byte
-	for _, s := range ref.Sections {
+	qsecs := ref.Sections
+	if len(qsecs) > 400 {
+		// a sample: the first and last sections, and those around multiples of 2^14 (batch sizes)
+		qsecs = append(append([]refcar.Section{}, ref.Sections[:60]...), ref.Sections[len(ref.Sections)-60:]...)
+		for k := 1 << 14; k+30 < len(ref.Sections); k += 1 << 14 {
+			qsecs = append(qsecs, ref.Sections[k-30:k+30]...)
+		}
+		for k := 0; k < 100; k++ {
+			qsecs = append(qsecs, ref.Sections[r.Intn(len(ref.Sections))])
+		}
+	}
+	for _, s := range qsecs {
 		queries = append(queries, s.Cid.Raw)
 		if s.Cid.Version == 1 {
 			queries = append(queries, refcar.MakeCidV1(s.Cid.Codec^0x1, s.Cid.MhCode, s.Cid.Digest)) // same multihash, other codec
@@ -223,6 +243,25 @@ func runC07(t *mon.T, raw json.RawMessage) {
 		if d.Seed%3 == 0 {
 			backing = lab.EOFReaderAt{B: file} // full read at the very end comes with io.EOF
 			t.Cover("backing:eof-with-last-read")
+		} else if d.Seed%3 == 2 {
+			// the payload reader of a v2.Reader over the same bytes (itself a reader derived from a reader,
+			// already read through once by whoever opened it): offsets in an index are payload offsets
+			if rd, rerr := carv2.NewReader(bytes.NewReader(file), opts...); rerr == nil {
+				if dr, derr := rd.DataReader(); derr == nil {
+					_, _ = io.Copy(io.Discard, dr)
+					backing = dr
+					t.Cover("backing:Reader.DataReader")
+				}
+			}
+		}
+		if d.Seed%5 == 4 {
+			// an io.ReaderAt that also has a seek position, which is not at the start (the caller sniffed
+			// the version, or read the whole file, before handing it over): ReadAt neither depends on that
+			// position nor moves it
+			br := bytes.NewReader(file)
+			_, _ = br.Seek([]int64{11, 1, int64(len(file)), int64(len(file) / 2)}[(d.Seed>>4)%4], io.SeekStart)
+			backing = br
+			t.Cover("backing:seekable-with-its-cursor-elsewhere")
 		}
 		ro, err := blockstore.NewReadOnly(backing, supplied, opts...)
 		if err != nil {
@@ -298,6 +337,19 @@ func runC07(t *mon.T, raw json.RawMessage) {
 		var backing io.ReaderAt = bytes.NewReader(file)
 		if d.Seed%3 == 1 {
 			backing = lab.EOFReaderAt{B: file}
+		} else if d.Seed%3 == 0 {
+			if rd, rerr := carv2.NewReader(bytes.NewReader(file), opts...); rerr == nil {
+				if dr, derr := rd.DataReader(); derr == nil {
+					backing = dr
+					t.Cover("backing:Reader.DataReader")
+				}
+			}
+		}
+		if d.Seed%5 == 3 {
+			br := bytes.NewReader(file)
+			_, _ = br.Seek([]int64{11, 1, int64(len(file)), int64(len(file) / 2)}[(d.Seed>>4)%4], io.SeekStart)
+			backing = br
+			t.Cover("backing:seekable-with-its-cursor-elsewhere")
 		}
 		sr, err := storage.OpenReadable(backing, opts...)
 		if err != nil {
@@ -362,6 +414,10 @@ func genC07(g *mon.G) {
 	for i := 0; i < g.Pick(1500, 30000); i++ {
 		g.Emit(c07Desc{Seed: r.Int63(), Container: conts[i%len(conts)], Whole: r.Intn(3) == 0, StoreID: r.Intn(2) == 0, Supplied: sup[r.Intn(len(sup))]})
 	}
+	for i := 0; i < g.Pick(3, 15); i++ {
+		g.Emit(c07Desc{Seed: r.Int63(), Container: []string{"v1", "v2-indexless", "v2-mh"}[i%3], Whole: i%2 == 1, StoreID: i%4 == 2, Supplied: []string{"", "", "", "lib-sorted", "lib-mh"}[i%5],
+			Big: []int{16500, 33000, 50000}[i%3] + r.Intn(3000)})
+	}
 }
 
 func init() {
@@ -372,7 +428,7 @@ func init() {
 		Assumptions: []string{"reference scan (refcar) is the model", "GetSize of an absent identity CID with StoreIdentityCIDs on: a size or a not-found answer are both accepted (the block is implied by its CID)"},
 		Gen:         genC07,
 		Run:         runC07,
-		MinCover: map[string]int{"unreadable-section-probes": 100, "archive-fully-indexed-read-without-the-option": 50, "input:identity-cid-longer-than-max-index-cid-size": 50, "container:v1": 20, "container:v1-nullpad": 20, "container:v2-mh": 20, "container:v2-sorted-pad": 20, "container:v2-indexless": 20,
+		MinCover: map[string]int{"unreadable-section-probes": 100, "backing:seekable-with-its-cursor-elsewhere": 100, "backing:Reader.DataReader": 100, "input:tens-of-thousands-of-sections": 3, "archive-fully-indexed-read-without-the-option": 50, "input:identity-cid-longer-than-max-index-cid-size": 50, "container:v1": 20, "container:v1-nullpad": 20, "container:v2-mh": 20, "container:v2-sorted-pad": 20, "container:v2-indexless": 20,
 			"supplied:lib-sorted": 5, "supplied:ref-mh": 5, "api:blockstore.OpenReadOnly": 50, "api:storage.OpenReadable": 50},
 	})
 }
